@@ -127,6 +127,7 @@ pub fn run(ctx: &mut RunCtx) {
     ctx.assume("update expressions never read a property the same statement writes (statement-internal read-your-writes is C24's subject); statements whose prefix touches an ambiguous reading are skipped");
     let cases = ctx.tier.pick(8000, 500_000);
     let excl_merge_on_count = ctx.has_open("count-zero-but-changed:merge-on-set-only");
+    let excl_cross_row = ctx.excluding("cross-row-reads-after-update-clause");
     let keys: Vec<String> = r#gen::KEYS.iter().map(|s| s.to_string()).collect();
     let types: Vec<String> = r#gen::TYPES.iter().map(|s| s.to_string()).collect();
     let test = |case: &Case, obs: &mut Obs| {
@@ -180,6 +181,27 @@ pub fn run(ctx: &mut RunCtx) {
                     continue;
                 }
                 Ok(s) => s,
+            };
+            // open finding: a later clause reads an entity through a row value that predates what
+            // another row of an earlier clause wrote to it
+            if stats.cross_row_reads {
+                if excl_cross_row && !case.force {
+                    obs.excluded("cross-row-reads-after-update-clause");
+                    model = before;
+                    log.pop();
+                    continue;
+                }
+                obs.class("cross-row-read-after-update-clause");
+            }
+            // open finding: type() of a relationship whose type name the statement itself introduced
+            let new_type = q.contains("type(")
+                && model.edges.keys().any(|(_, t, _)| !before.edges.keys().any(|(_, t0, _)| t0 == t));
+            let stale = if stats.cross_row_reads {
+                "stale-row-value:"
+            } else if new_type {
+                "type-of-new-relationship-type:"
+            } else {
+                ""
             };
             let n = match cy::write(&built.db, &q, &params) {
                 Ok(n) => n,
@@ -262,7 +284,7 @@ pub fn run(ctx: &mut RunCtx) {
             }
             let Some(mut m2) = aligned else {
                 let f = first_diff.unwrap();
-                fail!(format!("update:{}:{k}", f.signature), "after statement {si} the database differs from the reference: {}\n{}\n  model before: nodes {:?}\n                rels {:?} props {:?}", f.message, ctx_txt(&log), before.nodes, before.edges, before.edge_props);
+                fail!(format!("{stale}update:{}:{k}", f.signature), "after statement {si} the database differs from the reference: {}\n{}\n  model before: nodes {:?}\n                rels {:?} props {:?}", f.message, ctx_txt(&log), before.nodes, before.edges, before.edge_props);
             };
             m2.next_iid = d.nodes.keys().max().map(|x| x + 1).unwrap_or(0).max(before.next_iid + stats.created_nodes.len() as u32);
             model = m2;
